@@ -2,3 +2,4 @@ pub mod lossless;
 pub mod fmt;
 pub mod eval;
 pub mod trace;
+pub mod value;
